@@ -6,6 +6,20 @@ import native
 
 
 def search(pid, violations, rep):
+    if pid == 'C17':
+        try:
+            import native_c17
+            r = native_c17.run()
+        except Exception as e:
+            rep['replay_search'] = 'native C17 harness unavailable: %r' % e
+            return None
+        rep['replay_search'] = {'cmd': r.get('cmd'), 'evaluations': r.get('evaluations'), 'failing_cases_found': len(r.get('failures') or [])}
+        if r.get('ok') is False and r.get('failures'):
+            f = r['failures'][0]
+            return {'clause': f.split(' :: ')[0], 'observed': f.split(' :: ', 1)[1], 'more': r['failures'][1:5], 'reproduce_cmd': 'python3 /verif/tools/native_c17.py'}
+        return None
+    if pid == 'C18':
+        return None
     try:
         r = native.sweep([pid], 'quick', 0)
     except native.NativeUnavailable as e:
